@@ -146,6 +146,18 @@ def check_pair(t1, t2, recursive):
     ds = DirectorySnapshotDiff(s1, take(t1, recursive))
     if any(_lists(ds).values()):
         raise Violation(f"diff of two snapshots of the same tree is not empty: {_lists(ds)}", "self-diff")
+    # the subtraction operator is the same diff; against the empty snapshot everything is "created"
+    from watchdog.utils.dirsnapshot import EmptyDirectorySnapshot
+
+    dsub = s2 - s1
+    if {k: sorted(map(repr, v)) for k, v in _lists(dsub).items()} != {k: sorted(map(repr, v)) for k, v in L.items()}:
+        raise Violation(f"snapshot2 - snapshot1 differs from DirectorySnapshotDiff(snapshot1, snapshot2): {_lists(dsub)} vs {L}", "sub-operator")
+    de = DirectorySnapshotDiff(EmptyDirectorySnapshot(), s2)
+    LE = _lists(de)
+    if set(LE["files_created"]) | set(LE["dirs_created"]) != set(s2.paths) or any(LE[k] for k in LE if not k.endswith("created")):
+        raise Violation(f"diff against the empty snapshot is not 'everything created': {LE} for paths {sorted(s2.paths)}", "empty-snapshot")
+    if any(k2[p] != "d" for p in LE["dirs_created"]) or any(k2[p] != "f" for p in LE["files_created"]):
+        raise Violation(f"diff against the empty snapshot puts an entry into the wrong file/dir list: {LE}", "empty-snapshot")
     # (e) argument swap
     r_ = DirectorySnapshotDiff(s2, s1)
     R = _lists(r_)
